@@ -3,13 +3,73 @@ from __future__ import annotations
 
 import ast
 
-from sa import source
-from sa.cfg import cfg_of, guards
+from sa import pat, source
+from sa.cfg import cfg_of, guards, holds
 from sa.source import AnchorMissing, arg_of, bind_args, dotted, inline_node, is_self_attr, last_attr, local_defs, params_of, short, u, walk_body
 from sa.sym import comparison, parse_expr, rat_equal, ratfun
 
 _P = "esrally/track/params.py"
 _I = "esrally/utils/io.py"
+
+
+def _same_block(a, b) -> bool:
+    """two statements lie in the same statement list (same parent AND same arm of it)."""
+    p = source.parent(a)
+    if p is None or p is not source.parent(b):
+        return False
+    return any(any(x is a for x in blk) and any(x is b for x in blk) for blk in (getattr(p, f, None) for f in ("body", "orelse", "finalbody")) if isinstance(blk, list))
+
+
+def _meth(mod, cls, name):
+    m = mod.methods(cls).get(name)
+    if m is None:
+        raise AnchorMissing(f"{mod.relpath}: method '{cls.name}.{name}' not found")
+    return m
+
+
+def _arg(call, i):
+    """i-th positional argument of a call as text ('' when absent)."""
+    a = arg_of(call, i, None)
+    return u(a) if a is not None else ""
+
+
+def _target_name(call):
+    """the plain local a call's value is assigned to (`x = call(..)` / `x: T = call(..)`), else None."""
+    st = source.enclosing_stmt(call)
+    if isinstance(st, ast.Assign) and st.value is call and len(st.targets) == 1 and isinstance(st.targets[0], ast.Name):
+        return st.targets[0].id
+    if isinstance(st, ast.AnnAssign) and st.value is call and isinstance(st.target, ast.Name):
+        return st.target.id
+    return None
+
+
+def _unpack_names(call):
+    """names at the tuple-unpack positions of `a, b, .. = call(..)`, else None."""
+    st = source.enclosing_stmt(call)
+    if isinstance(st, ast.Assign) and st.value is call and len(st.targets) == 1 and isinstance(st.targets[0], ast.Tuple) and all(isinstance(t, ast.Name) for t in st.targets[0].elts):
+        return [t.id for t in st.targets[0].elts]
+    return None
+
+
+def _returned_name(f, pos=None):
+    """the local returned by the single return of f (pos: element of the returned tuple), else None."""
+    r = [x for x in walk_body(f) if isinstance(x, ast.Return)]
+    if len(r) != 1 or r[0].value is None:
+        return None
+    v = r[0].value
+    if pos is not None:
+        if not isinstance(v, ast.Tuple) or not -len(v.elts) <= pos < len(v.elts):
+            return None
+        v = v.elts[pos]
+    return v.id if isinstance(v, ast.Name) else None
+
+
+def _empty_list_local(f, name) -> bool:
+    """name is bound exactly once in f, to an empty list literal (plain or annotated assignment)."""
+    if name is None:
+        return False
+    b = [x for x in walk_body(f) if (isinstance(x, ast.Assign) and any(isinstance(t, ast.Name) and t.id == name for t in x.targets)) or (isinstance(x, ast.AnnAssign) and isinstance(x.target, ast.Name) and x.target.id == name)]
+    return len(b) == 1 and isinstance(b[0].value, ast.List) and not b[0].value.elts
 
 
 def run(chk):
@@ -31,6 +91,8 @@ def run(chk):
              "any split where a directly computed share differs by rounding: a document between two clients is read twice or never")
     bf = pr.func("bounds")
     bp = params_of(bf)
+    if len(bp) != 5:
+        raise AnchorMissing(f"bounds(): five parameters expected, found {bp}")
     total, s, e, n, flag = bp
     defs = local_defs(bf)
     ret = [x for x in walk_body(bf) if isinstance(x, ast.Return)]
@@ -91,7 +153,7 @@ def run(chk):
              "the ingest-percentage cut-off counts bulks of other slices / another bulk size: the group stops early or late")
     cr = pr.func("create_readers")
     nb = pr.func("number_of_bulks")
-    OFF = DOCS = LINES = None
+    OFF = DOCS = LINES = NB_DOCS = None
     for f, names in ((cr, ("start_client_index", "end_client_index", "num_clients")), (nb, None)):
         calls = [c for c in source.calls_in(f) if last_attr(c.func) == "bounds"]
         if not calls:
@@ -99,6 +161,8 @@ def run(chk):
         c = calls[0]
         b = bind_args(c, bf, skip_self=False)
         fp = params_of(f)
+        if len(fp) < 5:
+            raise AnchorMissing(f"{f.name}(): at least five parameters expected, found {fp}")
         loop = source.enclosing(c, ast.For)
         dv = loop.target.id if loop is not None and isinstance(loop.target, ast.Name) else "docs"
         ok = u(b.get(total)) == f"{dv}.number_of_documents" and u(b.get(flag)) == f"{dv}.includes_action_and_meta_data"
@@ -121,6 +185,7 @@ def run(chk):
             else:
                 # the counter consumes the document count (position 1) and nothing else of the triple
                 ok = len(names_) == 3 and names_[1] in reads and names_[0] not in reads and names_[2] not in reads
+                NB_DOCS = names_[1] if ok and isinstance(st.targets[0].elts[1], ast.Name) else None
             chk.ob("O3.2", f"{f.name}: result unpacked as (offset, docs, lines)", ok, st, f"{names_}")
     cdr = pr.func("create_default_reader")
     rc = [c for c in source.calls_in(cr) if u(c.func) == "create_reader"]
@@ -132,18 +197,18 @@ def run(chk):
     chk.ob("O3.2", "reader factory receives (docs, offset, lines, docs count, batch, bulk) under the parameters of the same meaning", ok, rc[0] if rc else cr, "")
     sl = [c for c in source.calls_in(cdr) if last_attr(c.func) == "Slice"]
     S = pr.cls("Slice")
-    sinit = pr.methods(S)["__init__"]
+    sinit = _meth(pr, S, "__init__")
     ok = bool(sl) and [u(a) for a in sl[0].args[1:3]] == ["offset", "num_lines"] and params_of(sinit)[2:4] == ["offset", "number_of_lines"]
     chk.ob("O3.2", "slice created with (offset, number of lines)", ok, sl[0] if sl else cdr, "")
     ok = any(isinstance(x, ast.Assign) and is_self_attr(x.targets[0], "offset") and u(x.value) == "offset" for x in walk_body(sinit)) and any(
         isinstance(x, ast.Assign) and is_self_attr(x.targets[0], "number_of_lines") and u(x.value) == "number_of_lines" for x in walk_body(sinit))
     chk.ob("O3.2", "slice stores offset and limit under their own names", ok, sinit, "")
-    so = pr.methods(S)["open"]
+    so = _meth(pr, S, "open")
     sk = [c for c in source.calls_in(so) if last_attr(c.func) == "skip_lines"]
-    ok = bool(sk) and u(sk[0].args[2]) == "self.offset" and u(sk[0].args[1]) == "self.source"
+    ok = bool(sk) and _arg(sk[0], 2) == "self.offset" and _arg(sk[0], 1) == "self.source"
     chk.ob("O3.2", "slice skips exactly its offset on open", ok, sk[0] if sk else so, "")
     PB = pr.cls("PartitionBulkIndexParamSource")
-    ii = pr.methods(PB).get("_init_internal_params")
+    ii = _meth(pr, PB, "_init_internal_params")
     bdb = pr.func("bulk_data_based")
     c1 = [c for c in source.calls_in(ii) if last_attr(c.func) == "bulk_data_based"]
     c2 = [c for c in source.calls_in(ii) if last_attr(c.func) == "number_of_bulks"]
@@ -169,7 +234,7 @@ def run(chk):
     # ---- O3.3 bounded read -------------------------------------------------------------------------------------------------------------------------
     chk.rule("O3.3", "slice reader: every read is readlines(min(bulk size, limit - progress)); progress += len(lines read) on every path after the read; StopIteration once progress >= limit", 4,
              "a client that is not the last one reads into its neighbour's slice (documents ingested twice)")
-    nx = pr.methods(S)["__next__"]
+    nx = _meth(pr, S, "__next__")
     g = cfg_of(nx)
     reads = [c for c in source.calls_in(nx) if last_attr(c.func) in ("readlines", "readline", "read")]
     ok = len(reads) == 1 and last_attr(reads[0].func) == "readlines"
@@ -186,7 +251,7 @@ def run(chk):
         ow = [x for m in pr.methods(S).values() for x in walk_body(m) if isinstance(x, (ast.Assign, ast.AugAssign)) and is_self_attr(x.targets[0] if isinstance(x, ast.Assign) else x.target, "current_line") and x not in adv and m.name != "__init__"]
         chk.ob("O3.3", "no other writer of the progress counter", not ow, ow[0] if ow else S, "")
     stops = [x for x in walk_body(nx) if isinstance(x, ast.Raise) and "StopIteration" in u(x.exc)]
-    ok = any(any(pol and u(t) in ("self.current_line >= self.number_of_lines", "self.number_of_lines <= self.current_line") for t, pol in guards(x)) for x in stops) and bool(reads) and \
+    ok = any(holds(x, "self.current_line >= self.number_of_lines") for x in stops) and bool(reads) and \
         any(g.dominated_by_nodes(g.node_of(reads[0]), [g.node_of(source.enclosing(x, ast.If))]) for x in stops if source.enclosing(x, ast.If) is not None)
     chk.ob("O3.3", "StopIteration once progress >= limit, tested before reading", ok, stops[0] if stops else nx, "")
 
@@ -195,25 +260,29 @@ def run(chk):
              "document line in both the fast and the regular path", 4,
              "files with action lines: bulks cut between an action line and its document, or doc counts doubled")
     SO = pr.cls("SourceOnlyIndexDataReader")
-    soi = pr.methods(SO)["__init__"]
+    soi = _meth(pr, SO, "__init__")
     sup = [c for c in source.calls_in(soi) if last_attr(c.func) == "__init__"]
-    ok = bool(sup) and rat_equal(sup[0].args[2], parse_expr("bulk_size * 2")) and u(sup[0].args[1]) == "batch_size"
+    ok = bool(sup) and len(sup[0].args) >= 3 and rat_equal(sup[0].args[2], parse_expr("bulk_size * 2")) and _arg(sup[0], 1) == "batch_size"
     chk.ob("O3.4", "source-only reader reads bulk_size * 2 lines per bulk (batch size unchanged)", ok, sup[0] if sup else soi, "")
-    rb = pr.methods(SO)["read_bulk"]
+    rb = _meth(pr, SO, "read_bulk")
     r = [x for x in walk_body(rb) if isinstance(x, ast.Return)]
-    ok = len(r) == 1 and isinstance(r[0].value, ast.Tuple) and u(r[0].value.elts[0]) in ("len(bulk_items) // 2",) and u(r[0].value.elts[1]) == "bulk_items"
+    # role: the local holding what next(self.file_source) delivered is returned as it is (position 1) and counted as len // 2 (position 0)
+    lv_ = _returned_name(rb, 1)
+    ok = len(r) == 1 and lv_ is not None and pat.is_(r[0].value, "(len(V_l) // 2, V_l)", binds={"l": lv_}) and pat.is_(local_defs(rb).get(lv_), "next(self.file_source)")
     chk.ob("O3.4", "source-only reader reports len(lines) // 2 documents and returns the lines unchanged", ok, r[0] if r else rb, "")
     MD = pr.cls("MetadataIndexDataReader")
     for name in ("_read_bulk_fast", "_read_bulk_regular"):
-        f = pr.methods(MD)[name]
+        f = _meth(pr, MD, name)
         gf = cfg_of(f)
         loops = [x for x in walk_body(f) if isinstance(x, ast.For)]
         ok = False
         if loops:
             L = loops[0]
             head = gf.node_of(L)
-            apps = [c for c in ast.walk(L) if isinstance(c, ast.Call) and u(c.func) == "current_bulk.append"]
-            docv = L.target.id
+            # roles: the bulk under construction is the (initially empty) list returned at position 1; the document is the loop variable over the lines read
+            cb = _returned_name(f, 1)
+            apps = [c for c in ast.walk(L) if isinstance(c, ast.Call) and cb is not None and pat.is_(c.func, "V_b.append", binds={"b": cb}) and len(c.args) == 1]
+            docv = L.target.id if isinstance(L.target, ast.Name) else None
             # on every path of one iteration: exactly one append whose argument carries the document
             doc_apps = [c for c in apps if any(isinstance(x, ast.Name) and x.id == docv for x in ast.walk(c.args[0]))]
             starts = gf.edge_targets(head, "iter")
@@ -227,24 +296,29 @@ def run(chk):
                 # a meta line precedes the doc whenever a meta item exists
                 ok = every and not twice and len(meta_apps) >= 1 and all(any(gf.path_exists(gf.node_of(m), d_, avoid=[head]) for d_ in dn) for m in meta_apps)
             r = [x for x in walk_body(f) if isinstance(x, ast.Return)]
-            ok = ok and len(r) == 1 and u(r[0].value.elts[0]) == f"len({u(L.iter)})" and u(r[0].value.elts[1]) == "current_bulk"
+            ok = ok and len(r) == 1 and isinstance(L.iter, ast.Name) and pat.is_(r[0].value, "(len(V_l), V_b)", binds={"l": L.iter.id, "b": cb}) and _empty_list_local(f, cb)
             src = local_defs(f).get(u(L.iter))
-            ok = ok and src is not None and u(src) == "next(self.file_source)"
+            ok = ok and pat.is_(src, "next(self.file_source)")
         chk.ob("O3.4", f"{name}: one document append per line read (action line before it), count == lines read", ok, f, "")
 
     # ---- O3.5 bulk-size bound -------------------------------------------------------------------------------------------------------------------------
     chk.rule("O3.5", "the batch loop stops at the batch size; each bulk is one bounded read; the emitted bulk-size is that read's document count", 3, "a bulk larger than the configured bulk size")
     IR = pr.cls("IndexDataReader")
-    inx = pr.methods(IR)["__next__"]
+    inx = _meth(pr, IR, "__next__")
     wl = [x for x in walk_body(inx) if isinstance(x, ast.While)]
-    ok = bool(wl) and u(wl[0].test) == "docs_in_batch < self.batch_size"
-    chk.ob("O3.5", "batch loop: while docs_in_batch < batch size", ok, wl[0] if wl else inx, "")
     rbc = [c for c in ast.walk(wl[0]) if isinstance(c, ast.Call) and u(c.func) == "self.read_bulk"] if wl else []
-    ap = [c for c in ast.walk(wl[0]) if isinstance(c, ast.Call) and u(c.func) == "batch.append"] if wl else []
-    ok = len(rbc) == 1 and len(ap) == 1 and isinstance(ap[0].args[0], ast.Tuple) and u(ap[0].args[0].elts[0]) == "docs_in_bulk"
+    # roles: the bulk's count is position 0 of the read_bulk() unpack; the batch counter is the local advanced by that count inside the loop; the batch is the list returned last
+    un = _unpack_names(rbc[0]) if len(rbc) == 1 else None
+    cntv = un[0] if un and len(un) == 2 else None
+    accs = [x.target.id for x in ast.walk(wl[0]) if isinstance(x, ast.AugAssign) and isinstance(x.op, ast.Add) and isinstance(x.target, ast.Name) and isinstance(x.value, ast.Name) and x.value.id == cntv] if wl and cntv else []
+    ok = bool(wl) and len(accs) == 1 and pat.is_(wl[0].test, "V_acc < self.batch_size", binds={"acc": accs[0]})
+    chk.ob("O3.5", "batch loop: while docs_in_batch < batch size", ok, wl[0] if wl else inx, u(wl[0].test) if wl else "")
+    batchv = _returned_name(inx, -1)
+    ap = [c for c in ast.walk(wl[0]) if isinstance(c, ast.Call) and pat.is_(c.func, "V_b.append", binds={"b": batchv})] if wl and batchv else []
+    ok = len(rbc) == 1 and len(ap) == 1 and cntv is not None and len(ap[0].args) == 1 and isinstance(ap[0].args[0], ast.Tuple) and bool(ap[0].args[0].elts) and pat.is_(ap[0].args[0].elts[0], "V_c", binds={"c": cntv}) and _empty_list_local(inx, batchv)
     chk.ob("O3.5", "one read_bulk() per appended bulk, reported with its own count", ok, ap[0] if ap else inx, "")
-    ent = pr.methods(IR)["__enter__"]
-    ok = any(isinstance(c, ast.Call) and last_attr(c.func) == "open" and u(c.args[2]) == "self.bulk_size" for c in walk_body(ent))
+    ent = _meth(pr, IR, "__enter__")
+    ok = any(isinstance(c, ast.Call) and last_attr(c.func) == "open" and _arg(c, 2) == "self.bulk_size" for c in walk_body(ent))
     chk.ob("O3.5", "the slice is opened with the reader's bulk size", ok, ent, "")
     bg = pr.func("bulk_generator")
     dd = [x for x in walk_body(bg) if isinstance(x, ast.Dict) and any(source.is_const(k_, "bulk-size") for k_ in x.keys)]
@@ -252,7 +326,8 @@ def run(chk):
     if dd:
         dct = {k_.value: v for k_, v in zip(dd[0].keys, dd[0].values) if isinstance(k_, ast.Constant)}
         lp = source.enclosing(dd[0], ast.For)
-        ok = isinstance(lp.target, ast.Tuple) and u(dct["bulk-size"]) == lp.target.elts[0].id and u(dct["body"]) == lp.target.elts[1].id
+        ok = lp is not None and isinstance(lp.target, ast.Tuple) and len(lp.target.elts) == 2 and all(isinstance(t, ast.Name) for t in lp.target.elts) and "body" in dct \
+            and pat.is_(dct["bulk-size"], "V_n", binds={"n": lp.target.elts[0].id}) and pat.is_(dct["body"], "V_b", binds={"b": lp.target.elts[1].id})
     chk.ob("O3.5", "emitted bulk-size / body are the bulk's own count / lines", ok, dd[0] if dd else bg, "")
 
     # ---- O3.6 conflict ids ---------------------------------------------------------------------------------------------------------------------------------
@@ -260,7 +335,7 @@ def run(chk):
              "non-conflict path; ids are offset by the slice offset", 6,
              "a conflicting action refers to an id this client has not emitted yet (or to another client's id)")
     GA = pr.cls("GenerateActionMetaData")
-    gn = pr.methods(GA)["__next__"]
+    gn = _meth(pr, GA, "__next__")
     gg = cfg_of(gn)
     subs = [x for x in walk_body(gn) if isinstance(x, ast.Subscript) and is_self_attr(x.value, "conflicting_ids")]
     idx_subs = [x for x in subs if isinstance(x.slice, ast.Name) and x.slice.id != "self"]
@@ -269,7 +344,7 @@ def run(chk):
     cs = idx_subs[0]
     gs = guards(cs)
     ats = [u(a) for t, pol in gs if pol for a in (t.values if isinstance(t, ast.BoolOp) and isinstance(t.op, ast.And) else [t])]
-    chk.ob("O3.6", "conflict path only when ids were already emitted (id_up_to > 0)", "self.id_up_to > 0" in ats, cs, f"{ats}")
+    chk.ob("O3.6", "conflict path only when ids were already emitted (id_up_to > 0)", holds(cs, "self.id_up_to > 0"), cs, f"{ats}")
     iv = cs.slice.id
     idefs = [x for x in walk_body(gn) if isinstance(x, ast.Assign) and u(x.targets[0]) == iv]
     gdefs = local_defs(gn)
@@ -299,7 +374,10 @@ def run(chk):
     bc = pr.func("build_conflicting_ids")
     fm = [x for x in walk_body(bc) if isinstance(x, ast.BinOp) and isinstance(x.op, ast.Mod) and isinstance(x.left, ast.Constant) and isinstance(x.left.value, str)]
     lp = source.enclosing(fm[0], ast.For) if fm else None
-    ok = bool(fm) and lp is not None and rat_equal(fm[0].right, parse_expr(f"{params_of(bc)[2]} + {lp.target.id}")) and u(lp.iter) == f"range({params_of(bc)[1]})"
+    bcp = params_of(bc)
+    if len(bcp) < 3:
+        raise AnchorMissing(f"build_conflicting_ids(): (conflicts, docs, offset) parameters expected, found {bcp}")
+    ok = bool(fm) and lp is not None and isinstance(lp.target, ast.Name) and rat_equal(fm[0].right, parse_expr(f"{bcp[2]} + {lp.target.id}")) and u(lp.iter) == f"range({bcp[1]})"
     chk.ob("O3.6", "ids are offset + i for i in range(docs of this slice) (no collisions across clients)", ok, fm[0] if fm else bc, "")
     bcall = [c for c in source.calls_in(cdr) if last_attr(c.func) == "build_conflicting_ids"]
     ok = bool(bcall) and [u(a) for a in bcall[0].args] == ["id_conflicts", "num_docs", "offset"]
@@ -310,31 +388,55 @@ def run(chk):
              "created reader into the result exactly once; chain() runs every reader inside its context; the bulk generator walks every batch and bulk", 6,
              "a whole corpus file is never ingested (or ingested twice) for some client index / number of corpora")
     cdefs3 = local_defs(cr)
-    rot = cdefs3.get("reordered_corpora")
-    k_ = cdefs3.get("start_corpora_id")
-    ok = rot is not None and u(rot) in ("corpora[start_corpora_id:] + corpora[:start_corpora_id]",) and k_ is not None and u(k_) == "start_client_index % len(corpora)"
+    # roles: the document-set loop is the loop around the bounds() call, the corpus loop the one around that; the rotated list is what the corpus loop iterates over
+    bcs = [c for c in source.calls_in(cr) if last_attr(c.func) == "bounds"]
+    il0 = source.enclosing(bcs[0], ast.For) if bcs else None
+    ol0 = source.enclosing(il0, ast.For) if il0 is not None else None
+    rotv = ol0.iter.id if ol0 is not None and isinstance(ol0.iter, ast.Name) else None
+    rot = cdefs3.get(rotv) if rotv else None
+    mb = pat.match(rot, "corpora[V_k:] + corpora[:V_k]")
+    k_ = cdefs3.get(mb["k"]) if mb else None
+    ok = mb is not None and pat.is_(k_, "start_client_index % len(corpora)") and {"corpora", "start_client_index"} <= set(crp)
     chk.ob("O3.9", "corpora rotated by start % len (every corpus kept once)", ok, rot if rot is not None else cr, u(rot) if rot is not None else "")
-    ol = [n for n in walk_body(cr) if isinstance(n, ast.For) and u(n.iter) == "reordered_corpora"]
-    il = [n for n in ast.walk(ol[0]) if isinstance(n, ast.For) and n is not ol[0] and u(n.iter).endswith(".documents")] if ol else []
+    ol = [ol0] if ol0 is not None and rotv is not None and any(n is ol0 for n in walk_body(cr)) else []
+    il = [il0] if ol and isinstance(ol0.target, ast.Name) and pat.is_(il0.iter, "V_c.documents", binds={"c": ol0.target.id}) else []
     ok = bool(ol) and bool(il)
     chk.ob("O3.9", "every document set of every (rotated) corpus is visited", ok, ol[0] if ol else cr, "")
+    RQ = CNT = CRS = None
     if il:
         mk = [n for n in ast.walk(il[0]) if isinstance(n, ast.Call) and u(n.func) == "create_reader"]
-        ap_ = [n for n in ast.walk(il[0]) if isinstance(n, ast.Call) and u(n.func) == "reader_queue.append"]
-        inc_ = [n for n in ast.walk(il[0]) if isinstance(n, ast.AugAssign) and u(n.target) == "total_readers"]
-        gs_ = [u(t) for t, pol in guards(mk[0], stop=il[0]) if pol] if mk else None
-        ok = len(mk) == 1 and len(ap_) == 1 and len(inc_) == 1 and gs_ == ["num_docs > 0"] and source.is_const(inc_[0].value, 1) and source.parent(inc_[0]) is source.parent(source.enclosing_stmt(ap_[0]))
+        # roles: the reader is the local the factory call is assigned to; the queue is what it is appended to; the counter is the local advanced in the document-set loop
+        rdv_ = _target_name(mk[0]) if mk else None
+        ap_ = [n for n in ast.walk(il[0]) if isinstance(n, ast.Call) and rdv_ is not None and pat.is_(n, "V_q.append(V_r)", binds={"r": rdv_})]
+        inc_ = [n for n in ast.walk(il[0]) if isinstance(n, ast.AugAssign) and isinstance(n.target, ast.Name)]
+        fs_ = pat.fact_nodes(mk[0], stop=il[0]) if mk else None
+        gs_ = [u(t) for t in fs_] if fs_ is not None else None
+        ok = len(mk) == 1 and len(ap_) == 1 and len(inc_) == 1 and DOCS is not None and len(fs_) == 1 and pat.is_(fs_[0], "V_d > 0", binds={"d": DOCS}) and isinstance(inc_[0].op, ast.Add) and source.is_const(inc_[0].value, 1) \
+            and _same_block(inc_[0], source.enclosing_stmt(ap_[0])) and _same_block(source.enclosing_stmt(mk[0]), source.enclosing_stmt(ap_[0]))
+        if ok:
+            RQ, CNT = ap_[0].func.value.id, inc_[0].target.id
+            # the queue is a fresh one per corpus
+            ok = any((isinstance(x, ast.AnnAssign) and isinstance(x.target, ast.Name) and x.target.id == RQ) or (isinstance(x, ast.Assign) and any(isinstance(t, ast.Name) and t.id == RQ for t in x.targets)) for x in ol[0].body)
         chk.ob("O3.9", "a reader per document set with a non-empty share, counted once", ok, mk[0] if mk else il[0], f"guards={gs_}")
-        qa = [n for n in ast.walk(ol[0]) if isinstance(n, ast.Call) and u(n.func) == "corpora_readers.append"]
-        chk.ob("O3.9", "every corpus queue is kept", len(qa) == 1 and source.parent(source.enclosing_stmt(qa[0])) is ol[0], qa[0] if qa else ol[0], "")
+        qa = [n for n in ast.walk(ol[0]) if isinstance(n, ast.Call) and RQ is not None and pat.is_(n, "V_all.append(V_q)", binds={"q": RQ})]
+        ok = len(qa) == 1 and any(x is source.enclosing_stmt(qa[0]) for x in ol[0].body)
+        CRS = qa[0].func.value.id if ok else None
+        chk.ob("O3.9", "every corpus queue is kept", ok, qa[0] if qa else ol[0], "")
     wl_ = [n for n in walk_body(cr) if isinstance(n, ast.While)]
     ok = False
     if wl_:
         W_ = wl_[0]
+        # roles: the result is the (initially empty) list the factory returns; the queues walked are the kept corpus queues; the loop counter is the reader counter
+        resv = _returned_name(cr)
         pops = [n for n in ast.walk(W_) if isinstance(n, ast.Call) and last_attr(n.func) == "popleft"]
-        decs = [n for n in ast.walk(W_) if isinstance(n, ast.AugAssign) and u(n.target) == "total_readers" and isinstance(n.op, ast.Sub) and source.is_const(n.value, 1)]
-        ok = u(W_.test) == "total_readers > 0" and len(pops) == 1 and len(decs) == 1 and isinstance(source.parent(pops[0]), ast.Call) and u(source.parent(pops[0]).func) == "staggered_readers.append" \
-            and source.parent(decs[0]) is source.parent(source.enclosing_stmt(pops[0])) and [u(t) for t, pol in guards(pops[0], stop=W_) if pol] == ["reader_queue"]
+        decs = [n for n in ast.walk(W_) if isinstance(n, ast.AugAssign) and CNT is not None and pat.is_(n.target, "V_n", binds={"n": CNT}) and isinstance(n.op, ast.Sub) and source.is_const(n.value, 1)]
+        qv = pops[0].func.value.id if len(pops) == 1 and isinstance(pops[0].func, ast.Attribute) and isinstance(pops[0].func.value, ast.Name) else None
+        ql = source.enclosing(pops[0], ast.For) if qv else None
+        fs_ = pat.fact_nodes(pops[0], stop=W_) if qv else []
+        ok = CNT is not None and pat.is_(W_.test, "V_n > 0", binds={"n": CNT}) and len(pops) == 1 and len(decs) == 1 and qv is not None and resv is not None and _empty_list_local(cr, resv) \
+            and isinstance(source.parent(pops[0]), ast.Call) and pat.is_(source.parent(pops[0]), "V_res.append(V_q.popleft())", binds={"res": resv, "q": qv}) \
+            and _same_block(decs[0], source.enclosing_stmt(pops[0])) and len(fs_) == 1 and pat.is_(fs_[0], "V_q", binds={"q": qv}) \
+            and ql is not None and any(x is ql for x in W_.body) and pat.is_(ql.target, "V_q", binds={"q": qv}) and CRS is not None and pat.is_(ql.iter, "V_all", binds={"all": CRS})
     chk.ob("O3.9", "staggering moves every created reader into the result exactly once", ok, wl_[0] if wl_ else cr, "")
     chf = pr.func("chain")
     ok = any(isinstance(n, ast.With) and any(isinstance(x, ast.Expr) and isinstance(x.value, ast.YieldFrom) for x in n.body) for n in walk_body(chf)) and any(isinstance(n, ast.For) and "is not None" in u(n.iter) for n in walk_body(chf))
@@ -354,7 +456,9 @@ def run(chk):
     chk.rule("O3.8", "per file the bulk count is the ceiling division of the slice's documents by the bulk size; total_bulks == ceil(all_bulks * p / 100); params() raises StopIteration at "
              "current == total unless looped and increments current once per returned bulk", 5,
              "with ingest percentage p the group stops one bulk early/late; without it the tail of the slice is never ingested")
-    acc = [x for x in walk_body(nb) if isinstance(x, ast.AugAssign) and u(x.target) == "bulks"]
+    # roles: the bulk counter is the local number_of_bulks() returns; the slice's document count is position 1 of its bounds() unpack
+    bulkv = _returned_name(nb)
+    acc = [x for x in walk_body(nb) if isinstance(x, ast.AugAssign) and isinstance(x.op, ast.Add) and bulkv is not None and pat.is_(x.target, "V_b", binds={"b": bulkv})]
     ndefs = {}
     for x in walk_body(nb):
         if isinstance(x, ast.Assign) and isinstance(x.targets[0], ast.Tuple) and isinstance(x.value, ast.Tuple):
@@ -364,27 +468,36 @@ def run(chk):
             ndefs[u(x.targets[0])] = x.value
     bsz = params_of(nb)[4]
     ok = False
-    if len(acc) == 2:
-        full, one = acc
-        fe = ndefs.get(u(full.value))
-        ok = fe is not None and u(fe) == f"num_docs // {bsz}" and source.is_const(one.value, 1) and any(pol and u(source.inline_node(t, {k_: v for k_, v in ndefs.items() if k_ == "rest"})) in (f"num_docs % {bsz} > 0", f"num_docs % {bsz} != 0") for t, pol in guards(one))
-    elif len(acc) == 1:
-        v = acc[0].value
-        ok = u(v) in (f"math.ceil(num_docs / {bsz})", f"-(-num_docs // {bsz})", f"(num_docs + {bsz} - 1) // {bsz}")
+    nd_ = {"d": NB_DOCS}
+    zero = [x for x in walk_body(nb) if isinstance(x, ast.Assign) and bulkv is not None and any(pat.is_(t, "V_b", binds={"b": bulkv}) for t in x.targets)]
+    loopv = {t.id for x in walk_body(nb) if isinstance(x, ast.For) for t in ast.walk(x.target) if isinstance(t, ast.Name)}
+    idefs_ = {k_: v for k_, v in ndefs.items() if k_ != NB_DOCS and k_ != bulkv and k_ not in loopv}
+    start0 = NB_DOCS is not None and len(zero) == 1 and source.is_const(zero[0].value, 0) and source.parent(zero[0]) is nb
+    if len(acc) == 2 and start0:
+        one = [x for x in acc if source.is_const(x.value, 1)]
+        full = [x for x in acc if x not in one]
+        if len(one) == 1 and len(full) == 1:
+            fe = inline_node(full[0].value, idefs_)
+            ok = pat.is_(fe, f"V_d // {bsz}", binds=nd_) and not guards(full[0], stop=source.enclosing(full[0], ast.For)) \
+                and any(pat.is_(inline_node(t, idefs_), f"V_d % {bsz} > 0", f"V_d % {bsz} != 0", binds=nd_) for t in pat.fact_nodes(one[0], stop=source.enclosing(one[0], ast.For)))
+    elif len(acc) == 1 and start0:
+        v = inline_node(acc[0].value, idefs_)
+        ok = pat.is_(v, f"math.ceil(V_d / {bsz})", f"-(-V_d // {bsz})", f"(V_d + {bsz} - 1) // {bsz}", binds=nd_) and not guards(acc[0], stop=source.enclosing(acc[0], ast.For))
     chk.ob("O3.8", "bulks per file == ceil(docs / bulk size)", ok, acc[0] if acc else nb, "")
     tb = [x for x in walk_body(ii) if isinstance(x, ast.Assign) and is_self_attr(x.targets[0], "total_bulks")]
-    ok = bool(tb) and isinstance(tb[0].value, ast.Call) and dotted(tb[0].value.func) == "math.ceil" and rat_equal(tb[0].value.args[0], parse_expr("all_bulks * self.ingest_percentage / 100")) and u(local_defs(ii).get("all_bulks")) == u(c2[0])
+    allv = _target_name(c2[0])  # role: the local holding the counter's result
+    ok = bool(tb) and isinstance(tb[0].value, ast.Call) and dotted(tb[0].value.func) == "math.ceil" and len(tb[0].value.args) == 1 and allv is not None and rat_equal(tb[0].value.args[0], parse_expr(f"{allv} * self.ingest_percentage / 100")) and local_defs(ii).get(allv) is c2[0]
     chk.ob("O3.8", "total_bulks == ceil(all_bulks * p / 100)", ok, tb[0] if tb else ii, u(tb[0].value) if tb else "")
-    pm = pr.methods(PB)["params"]
+    pm = _meth(pr, PB, "params")
     gpm = cfg_of(pm)
     stop = [x for x in walk_body(pm) if isinstance(x, ast.Raise) and "StopIteration" in u(x.exc)]
-    ok = bool(stop) and any(pol and u(t) in ("self.current_bulk == self.total_bulks", "self.current_bulk >= self.total_bulks") for t, pol in guards(stop[0])) and any((not pol) and u(t) == "self.looped" for t, pol in guards(stop[0]))
+    ok = bool(stop) and (holds(stop[0], "self.current_bulk == self.total_bulks") or holds(stop[0], "self.current_bulk >= self.total_bulks")) and holds(stop[0], "not self.looped")
     chk.ob("O3.8", "StopIteration at current == total unless looped", ok, stop[0] if stop else pm, "")
     inc = [x for x in walk_body(pm) if isinstance(x, ast.AugAssign) and is_self_attr(x.target, "current_bulk")]
     rt = [x for x in walk_body(pm) if isinstance(x, ast.Return)]
     ok = len(inc) == 1 and source.is_const(inc[0].value, 1) and not guards(inc[0]) and len(rt) == 1 and u(rt[0].value) == "next(self.internal_params)" and gpm.dominated_by_nodes(gpm.node_of(rt[0]), [gpm.node_of(inc[0])])
     chk.ob("O3.8", "current += 1 once per returned bulk", ok, inc[0] if inc else pm, "")
-    ok = any(isinstance(x, ast.Call) and u(x.func) == "self._init_internal_params" and any(pol and u(t) == "self.current_bulk == 0" for t, pol in guards(x)) for x in walk_body(pm))
+    ok = any(isinstance(x, ast.Call) and u(x.func) == "self._init_internal_params" and holds(x, "self.current_bulk == 0") for x in walk_body(pm))
     chk.ob("O3.8", "readers and totals initialised before the first bulk", ok, pm, "")
     pc = pr.methods(PB).get("percent_completed")
     r = [x for x in walk_body(pc) if isinstance(x, ast.Return)] if pc else []
